@@ -127,8 +127,11 @@ fn render<T: std::fmt::Debug>(v: &T) -> String {
 
 fn small_domains(ctx: &mut Ctx) {
     // all 65536 u16 values through every u16-taking conversion
-    ctx.cases("u16-domain", 65536, |ctx, case, _rng| {
-        let v = case as u16;
+    // under Miri (about four orders of magnitude slower) the domains are sampled
+    let miri = ctx.profile == "miri";
+    let (n16, step16) = if miri { (128u64, 521u64) } else { (65536, 1) };
+    ctx.cases("u16-domain", n16, |ctx, case, _rng| {
+        let v = (case * step16) as u16;
         call(ctx, "MessageType::from(u16)", |d| {
             *d = format!("{:#06x}", v);
             let t = MessageType::from(v);
@@ -182,11 +185,14 @@ fn small_domains(ctx: &mut Ctx) {
         });
         ctx.eval(Some(v as u64));
     });
-    ctx.exhaustive.insert("all 65536 values of every u16-taking constructor/conversion".into(), ctx.only.is_none());
+    if !miri {
+        ctx.exhaustive.insert("all 65536 values of every u16-taking constructor/conversion".into(), ctx.only.is_none());
+    }
 
     // all 256 u8 values
-    ctx.cases("u8-domain", 256, |ctx, case, _rng| {
-        let v = case as u8;
+    let (n8, step8) = if miri { (32u64, 8u64) } else { (256, 1) };
+    ctx.cases("u8-domain", n8, |ctx, case, _rng| {
+        let v = (case * step8) as u8;
         call(ctx, "MessageClass::try_from(u8)", |d| {
             *d = format!("{}", v);
             if let Ok(c) = MessageClass::try_from(v) {
@@ -213,13 +219,15 @@ fn small_domains(ctx: &mut Ctx) {
         });
         ctx.eval(None);
     });
-    ctx.exhaustive.insert("all 256 values of every u8-taking constructor/conversion".into(), ctx.only.is_none());
+    if !miri {
+        ctx.exhaustive.insert("all 256 values of every u8-taking constructor/conversion".into(), ctx.only.is_none());
+    }
 }
 
 fn assert_eq_soft(_b: bool) {}
 
 fn strings(ctx: &mut Ctx) {
-    let n = ctx.n(40_000, 2_000_000);
+    let n = ctx.n(200_000, 5_000_000);
     ctx.cases("strings", n, |ctx, case, rng| {
         let s = hostile_string(rng, 509);
         let s2 = hostile_string(rng, 100);
@@ -370,7 +378,7 @@ fn strings(ctx: &mut Ctx) {
 }
 
 fn sockaddr_and_numbers(ctx: &mut Ctx) {
-    let n = ctx.n(4_000, 200_000);
+    let n = ctx.n(20_000, 500_000);
     ctx.cases("values", n, |ctx, _case, rng| {
         let sa: SocketAddr = gen::sockaddr(rng);
         call(ctx, "address attributes", |d| {
@@ -465,7 +473,7 @@ fn all_kinds(rng: &mut Rng) -> Vec<StunAttribute> {
 /// every `is_*` / `as_*` accessor of StunAttribute on every kind (the mismatching ones
 /// must return false / Err, never panic)
 fn enum_accessors(ctx: &mut Ctx) {
-    let n = ctx.n(40, 2_000);
+    let n = ctx.n(200, 5_000);
     ctx.cases("enum-accessors", n, |ctx, _case, rng| {
         let attrs = all_kinds(rng);
         // an Unknown attribute can only be obtained from the decoder
@@ -531,7 +539,7 @@ fn enum_accessors(ctx: &mut Ctx) {
 
 /// build -> clone -> mutate either copy -> read both
 fn clone_independence(ctx: &mut Ctx) {
-    let n = ctx.n(6_000, 300_000);
+    let n = ctx.n(30_000, 800_000);
     ctx.cases("clone-independence", n, |ctx, case, rng| {
         match case % 3 {
             0 => {
